@@ -3,17 +3,19 @@
 (a) Lean obligations: FfcxProofs/C15.lean.
 (b) Correspondence model vs real `jit.compile_forms` (and, on a subset, `jit.compile_expressions`:
     same protocol, same model) under `harness/sched.py` with fault injection:
-    every fail point (code generation; the four phases of the C build; `open(ready_name,'x')`;
-    `fd.write`/`fd.close` on the ready marker) and every kill point of the builder, each followed by every interleaving of one later request with the builder's remaining
+    every fail point (code generation; the four phases of the C build; creating the marker's temp
+    file; `fd.write`/`fd.close` on it; `os.replace` into place) and every kill point of the builder, each followed by every interleaving of one later request with the builder's remaining
     steps and by a third, late request; earlier-arrived waiters; seeded random schedules with random
     faults.
 (c) Failing-input search on the real code with the property's own oracle: the failing request
     raises; `.c` is renamed to `.c.failed`; `logging.getLogger().handlers` and `sys.stdout` are what
     they were before the request; the next request builds afresh and returns correct kernels; after a
     kill every later request either returns correct kernels from a complete module or raises
-    TimeoutError after exactly `timeout` polls.  A failing request that leaves the ready marker behind
-    while releasing the lock is reported under `fail:<cause>:stale-marker-poisons-cache` together with
-    everything that follows from it in the same schedule.  One run uses the real C compiler (made to fail
+    TimeoutError after exactly `timeout` polls.  Two search keys stay armed for the (repaired, /repo 101bdbe)
+    marker-write defects: a failing request that leaves the ready marker behind while releasing the lock is
+    reported under `fail:<cause>:stale-marker-poisons-cache` together with everything that follows from it in
+    the same schedule; an import of an incomplete module in a schedule with a failed marker write under
+    `fail:markwrite:withdrawn-marker-import-race`.  One run uses the real C compiler (made to fail
     through the CFLAGS environment variable, so that the retry has the same module name).
 """
 import logging
@@ -27,26 +29,26 @@ from harness.props import c14
 
 THEOREMS = [
     "Ffcx.Jit.fail_releases_lock",
-    "Ffcx.Jit.later_requests_terminate",
-    "Ffcx.Jit.kill_safe_partial",
-    "Ffcx.Jit.kill_safe_counterexample",
+    "Ffcx.Jit.kill_safe",
     "Ffcx.Jit.marker_after_compile",
     "Ffcx.Jit.globals_restored",
-    "Ffcx.Jit.no_poison_partial",
-    "Ffcx.Jit.no_poison_counterexample",
-    "Ffcx.Jit.stale_marker_never_rebuilt",
+    "Ffcx.Jit.no_poison",
 ]
 
-B = sched.BUILDER_OPS  # lock gen swap src obj link1 link2 unredir markcreate markwrite restore find load
-FAIL_OPS = ["gen", "src", "obj", "link1", "link2", "markcreate", "markwrite"]
-INJECTED = (sched.InjectedCodegenError, sched.InjectedCompileError, sched.InjectedMarkerOpenError, sched.InjectedMarkerWriteError)
+B = sched.BUILDER_OPS  # lock gen swap src obj link1 link2 unredir tmpcreate tmpwrite markcheck publish restore find load
+FAIL_OPS = ["gen", "src", "obj", "link1", "link2", "tmpcreate", "tmpwrite", "publish"]
+# steps the failing request still takes: (tmpremove,) (restore handlers in `finally`,) release
+REST = {"gen": 1, "src": 2, "obj": 2, "link1": 2, "link2": 2, "tmpcreate": 2, "tmpwrite": 3, "publish": 3}
+INJECTED = (sched.InjectedCodegenError, sched.InjectedCompileError, sched.InjectedMarkerOpenError,
+            sched.InjectedMarkerWriteError, sched.InjectedPublishError)
 STALE_KEY = "fail:{cause}:stale-marker-poisons-cache"
+RACE_KEY = "fail:markwrite:withdrawn-marker-import-race"
 
 
 def fail_key(op, what):
     """Canonical id of a failing point: all four phases of ffibuilder.compile are one exit of
     `_compile_objects` ("compile raises")."""
-    point = "compile-raises" if op in sched.COMPILE_OPS else f"{op}-raises"  # gen / markcreate / markwrite
+    point = "compile-raises" if op in sched.COMPILE_OPS else f"{op}-raises"  # gen / tmpcreate / tmpwrite / publish
     return f"globals:{point}:{what}"
 
 
@@ -86,9 +88,14 @@ def _generic(chk, sc, schedule):
     payload = {"api": sc.ref.api, "n": sc.n, "timeout": sc.timeout, "schedule": [list(x) for x in schedule], "trace": [list(t) for t in sc.trace]}
     if stale_marker(chk, sc, payload):
         return payload, True
+    write_failed = any(t[1] in ("tmpwrite", "markwrite") and t[2] == "raise" for t in sc.trace)
     for st in sc.procs:
         if any(x != "complete" for x in st.loaded):
-            c14.report(chk, "load:incomplete-module", f"request {st.pid} imported a {st.loaded} module", payload)
+            if write_failed:
+                c14.report(chk, RACE_KEY, f"jit.{sc.ref.entry}: after a failed write of the ready marker request {st.pid} "
+                                          f"imported a {st.loaded} module (a marker it had seen was withdrawn / the .so relinked)", payload)
+            else:
+                c14.report(chk, "load:incomplete-module", f"request {st.pid} imported a {st.loaded} module", payload)
         if not st.finished or st.dead:
             continue
         o = st.outcome
@@ -203,7 +210,7 @@ def make_kill_oracle(op):
         if attributed:
             return
         payload["fault"] = f"kill before {op}"
-        marker_written = B.index(op) > B.index("markcreate")  # (killed before fd.write: the marker is there, empty)
+        marker_written = B.index(op) > B.index("publish")  # (killed before os.replace: only a stray temp file)
         for pid in (1, 2):
             st = sc.procs[pid]
             if not st.finished:
@@ -313,52 +320,83 @@ def real_compiler_failure(chk, root):
         rootlog.handlers = before_handlers
 
 
-def stale_marker_demo(n=4, timeout=3):
-    """Request 0 builds, `fd.write` on the marker raises, the handlers are restored, the lock is renamed;
-    request 1 rebuilds up to the half-written `.so`; request 2 arrives, sees the stale marker and imports;
-    request 1 finishes the link and reaches open(ready_name,'x'); request 3 (fresh) and the process of
-    request 0 (asking again) try afterwards."""
-    return ([(0, "none")] * B.index("markwrite") + [(0, "fail"), (0, "none"), (0, "none")]
-            + [(1, "none")] * (B.index("link1") + 1) + [(2, "none")] * 4 + [(1, "none")] * 5
-            + [(3, "none")] * 12 + [(0, "again")] + [(0, "none")] * 12)
+def marker_write_fails(n=4, timeout=3):
+    """Request 0 builds, `fd.write` on the marker's temp file raises, the temp file is removed, the handlers
+    are restored, the lock is renamed; request 1 rebuilds (complete run); requests 2 and 3 arrive afterwards
+    and the process of request 0 asks again: all three must reuse the module."""
+    return ([(0, "none")] * B.index("tmpwrite") + [(0, "fail")] + [(0, "none")] * REST["tmpwrite"]
+            + [(1, "none")] * len(B) + [(2, "none")] * 4 + [(3, "none")] * 4 + [(0, "again")] + [(0, "none")] * 4)
+
+
+def marker_write_fails_race(n=3, timeout=3):
+    """The interleaving of the withdrawn-marker race: request 1 polls while request 0 is between creating and
+    publishing the marker; request 0's write fails; request 2 rebuilds up to the half-written `.so`; request 1
+    moves on; everybody finishes."""
+    return ([(0, "none")] * B.index("tmpwrite") + [(1, "none")] * 2 + [(0, "fail")] + [(0, "none")] * REST["tmpwrite"]
+            + [(2, "none")] * (B.index("link1") + 1) + [(1, "none")] * 2 + [(2, "none")] * len(B) + [(1, "none")] * 6)
+
+
+def recovery_oracle(chk, sc, schedule, late_pids):
+    """After a failed marker write: request 0 raised the OSError, left neither marker nor lock nor temp file;
+    the next request rebuilt successfully; everybody after it reused the module without compiling."""
+    payload, attributed = _generic(chk, sc, schedule)
+    if attributed:
+        return
+    st0 = sc.procs[0]
+    first = st0.history[0] if st0.history else st0.outcome
+    fs0 = (st0.fs_history[0] if st0.fs_history else st0.fs_at_finish) or ({},)
+    if not (first and first[0] == "raised" and isinstance(first[1], sched.InjectedMarkerWriteError)):
+        c14.report(chk, "fail:tmpwrite:not-raised", f"the request whose marker write failed ended as {first}", payload)
+        return
+    d0 = fs0[0]
+    if d0.get("lock") != "absent" or not d0.get("failed") or d0.get("tmp"):
+        c14.report(chk, "fail:tmpwrite:lock-not-released", f"when the failing request raised the directory was {d0}", payload)
+    st1 = sc.procs[1]
+    if not (st1.finished and st1.outcome[0] == "done" and st1.outcome[1]):
+        c14.report(chk, "fail:tmpwrite:next-request-failed", f"the request after the failed marker write ended as {sc.status(1)}", payload)
+    for st in sc.procs[2:] + [st0]:
+        if st.finished and not (st.outcome[0] == "done" and not st.outcome[1] and st.compiles == 0):
+            c14.report(chk, "fail:tmpwrite:late-request", f"late request {st.pid} ended as {sc.status(st.pid)} compiles={st.compiles}", payload)
 
 
 def drive(chk, P, d, root, idx, timeouts, full, rng, nrand):
     """All fault schedules on one API (P.ref.api); `full` = every position, else a subset."""
-    # -- the marker write fails (first: its failing input is the one reported for the stale-marker key)
+    # -- the marker write fails (the two armed search keys: stale marker, withdrawn-marker import race)
     for at in ("write", "close"):
         P.markwrite_fail_at = at
-        schedule = stale_marker_demo()
-        c14.run_one(chk, P, d, root, idx, 4, 3, schedule, kind="stale-marker", key=f"markwrite@{at}:rebuild-race", oracle=generic_oracle)
+        c14.run_one(chk, P, d, root, idx, 4, 3, marker_write_fails(), kind="marker-write-fails", key=f"tmpwrite@{at}:recovery",
+                    oracle=recovery_oracle)
+        idx += 1
+        c14.run_one(chk, P, d, root, idx, 3, 3, marker_write_fails_race(), kind="marker-write-fails", key=f"tmpwrite@{at}:race",
+                    oracle=generic_oracle)
         idx += 1
         if not full:
             break
     P.markwrite_fail_at = "write"
     for timeout in timeouts:
-        K = timeout + 14  # enough steps for any request to finish
+        K = timeout + 16  # enough steps for any request to finish
         late = c14.completion([2], timeout + 4)
         # -- every fail point x every position of the builder's release among the later request's steps
         for op in FAIL_OPS:
             pre = [(0, "none")] * B.index(op) + [(0, "fail")]
-            # what the failing request still does: (restore handlers in `finally`,) release
-            rest = [(0, "none")] * (1 if op == "gen" else 2)
+            rest = [(0, "none")] * REST[op]
             for j in (range(K + 1) if full else (0, 4, K)):
-                P.markwrite_fail_at = "close" if (op == "markwrite" and j % 2) else "write"
+                P.markwrite_fail_at = "close" if (op == "tmpwrite" and j % 2) else "write"
                 schedule = pre + [(1, "none")] * j + rest + [(1, "none")] * (K - j) + late
                 c14.run_one(chk, P, d, root, idx, 3, timeout, schedule, kind="fail-point",
                             key=f"t{timeout}:fail@{op}:release-after-{j}", oracle=make_fail_oracle(op, j))
                 idx += 1
             P.markwrite_fail_at = "write"
-            if op != "gen":  # the later request moves between `restore` and `release`
+            if op != "gen":  # the later request moves between (`tmpremove`,) `restore` and `release`
                 for j1 in (range(3) if full else (1,)):
                     for j2 in (range(1, 4) if full else (2,)):
-                        schedule = (pre + [(1, "none")] * j1 + [(0, "none")] + [(1, "none")] * j2 + [(0, "none")]
+                        schedule = (pre + [(1, "none")] * j1 + [(0, "none")] * (REST[op] - 1) + [(1, "none")] * j2 + [(0, "none")]
                                     + [(1, "none")] * K + late)
                         c14.run_one(chk, P, d, root, idx, 3, timeout, schedule, kind="fail-point",
                                     key=f"t{timeout}:fail@{op}:restore-{j1}-release-{j2}", oracle=make_fail_oracle(op, j1))
                         idx += 1
             # the same process asks again after its failed request
-            schedule = pre + rest + [(0, "again")] + [(0, "none")] * 13 + c14.completion([1], timeout + 4)
+            schedule = pre + rest + [(0, "again")] + [(0, "none")] * len(B) + c14.completion([1], timeout + 4)
             c14.run_one(chk, P, d, root, idx, 3, timeout, schedule, kind="retry-after-fail",
                         key=f"t{timeout}:fail@{op}:again", oracle=make_retry_oracle(op))
             idx += 1
@@ -384,13 +422,13 @@ def drive(chk, P, d, root, idx, timeouts, full, rng, nrand):
                             key=f"t{timeout}:kill@{op}:waiter-after-{k0}", oracle=generic_oracle)
                 idx += 1
         # a waiter times out behind a stalled builder, the builder finishes, the waiter asks again
-        schedule = [(0, "none")] + [(1, "none")] * (timeout + 1) + [(0, "none")] * 12 + [(1, "again")] + [(1, "none")] * 5
+        schedule = [(0, "none")] + [(1, "none")] * (timeout + 1) + [(0, "none")] * (len(B) - 1) + [(1, "again")] + [(1, "none")] * 5
         c14.run_one(chk, P, d, root, idx, 2, timeout, schedule, kind="retry-after-timeout",
                     key=f"t{timeout}:timeout:again", oracle=retry_after_timeout_oracle)
         idx += 1
         # kill of a waiter / of a request that has not arrived: nobody else is affected
         for pre in ([(0, "none"), (1, "kill")], [(0, "none"), (1, "none"), (1, "kill")], [(0, "none"), (1, "none"), (1, "none"), (1, "kill")]):
-            schedule = list(pre) + c14.completion([0, 2], 14)
+            schedule = list(pre) + c14.completion([0, 2], len(B) + 1)
             c14.run_one(chk, P, d, root, idx, 3, timeout, schedule, kind="kill-waiter",
                         key=f"t{timeout}:" + c14.sched_key(pre), oracle=generic_oracle)
             idx += 1
@@ -408,7 +446,7 @@ def drive(chk, P, d, root, idx, timeouts, full, rng, nrand):
             r = rng.random()
             schedule.append((p, "fail" if r < pf else ("kill" if r < pf + pk else ("again" if r < pf + pk + 0.06 else "none"))))
         if rng.random() < 0.6:
-            schedule += c14.completion(range(n), timeout + 14)
+            schedule += c14.completion(range(n), timeout + 16)
         faults = [c for _, c in schedule if c != "none"]
         c14.run_one(chk, P, d, root, idx, n, timeout, schedule, kind="random-faults",
                     key=f"n{n}t{timeout}:" + c14.sched_key(schedule) if faults else None, oracle=generic_oracle)
